@@ -82,25 +82,51 @@ Theorem C08_consistent_init : Consistent f_empty /\ MWf m_init /\ MConsistent m_
 Proof. exact (conj consistent_init mconsistent_init). Qed.
 Print Assumptions C08_consistent_init.
 
-(* consistent_step, one version: ingest, mutating write, merge, cleave, split-supervoxel and
-   renumber keep the state consistent, for every layout, under the contracts of [op_guard]. *)
+(* consistent_step, one version: ingest, mutating write, POST index(es), POST mappings, merge,
+   cleave, split-supervoxel and renumber keep the state consistent, for every layout, under the
+   contracts of [op_guard] (for the two ingest posts: "the posted data agrees with the voxels",
+   made precise there). *)
 Theorem C08_consistent_step : forall fx n st o st',
   N.of_nat n < 2 ^ 31 -> Inv n st -> op_guard fx n st o ->
   fstep fx (mapped (f_map st)) st o = Ok st' -> Inv n st'.
 Proof. exact consistent_step. Qed.
 Print Assumptions C08_consistent_step.
 
-(* not closed: ingest-supervoxels / POST index(es) / POST mappings (contract: the posted data
-   agrees with the voxels) and the split of a body (SplitLabels, off by default). *)
+(* not closed as single steps: ingest-supervoxels (no indexing: the state after it is inconsistent
+   until the indices follow -- the bulk load as a whole is C08_offline_ingest_consistent below) and
+   the split of a body (SplitLabels; the route is off in the server; the missing lemmas are listed
+   at consistent_step_partial in Proofs/LabelMap.v). *)
 Theorem C08_consistent_step_partial : forall fx n st o st',
   N.of_nat n < 2 ^ 31 -> Inv n st ->
   match o with
-  | OStore _ | OPutIndex _ _ | OPutMappings _ | OSplit _ _ _ _ => Inv n st'
+  | OStore _ | OSplit _ _ _ _ => Inv n st'
   | _ => op_guard fx n st o
   end ->
   fstep fx (mapped (f_map st)) st o = Ok st' -> Inv n st'.
 Proof. exact consistent_step_partial. Qed.
 Print Assumptions C08_consistent_step_partial.
+
+(* a state whose index table is the scan of its voxels under its mapping is consistent. *)
+Theorem C08_scanned_consistent : forall st,
+  NoDup (map fst (f_vox st)) ->
+  (forall b arr s, In (b, arr) (f_vox st) -> In s arr -> s <> 0 -> mapped (f_map st) s <> 0) ->
+  (forall l, get_idx st l = if memN l (scan_bodies (f_vox st) (f_map st))
+                            then Some (scan_index (f_vox st) (f_map st) l) else None) ->
+  Consistent st.
+Proof. exact scanned_consistent. Qed.
+Print Assumptions C08_scanned_consistent.
+
+(* the bulk load onto an empty instance -- POST ingest-supervoxels, POST mappings, POST indices
+   with the scanned indices -- is accepted and ends in a consistent state, for every layout; the
+   only condition: no stored supervoxel is mapped to body 0. *)
+Theorem C08_offline_ingest_consistent : forall fx blocks pairs,
+  let vx := put_blocks [] blocks in
+  let fm := fold_left (fun m p => aset N.eqb (fst p) (snd p) m) pairs [] in
+  (forall b arr s, In (b, arr) vx -> In s arr -> s <> 0 -> mapped fm s <> 0) ->
+  exists st', fsteps fx f_empty (offline_ops blocks pairs) = Ok st' /\
+              f_vox st' = vx /\ f_map st' = fm /\ Consistent st'.
+Proof. exact offline_ingest_consistent. Qed.
+Print Assumptions C08_offline_ingest_consistent.
 
 (* vmap.value over getDistFromRoot(GetAncestry v) is "the nearest ancestor that wrote". *)
 Theorem C08_vmap_value_nearest_ancestor : forall a vm, NoDup a ->
@@ -217,3 +243,11 @@ Example C08_reachable_example :
             o_size (view s 0) 1 = 4 /\ o_size (view s 1) 1 = 1 /\ o_size (view s 1) 10 = 3 /\
             mapped (f_map (view s 1)) 2 = 10 /\ mapped (f_map (view s 0)) 2 = 1.
 Proof. exact reachable_example. Qed.
+
+(* the bulk load run on two blocks with the agglomeration {2,3 -> 7} *)
+Example C08_offline_example :
+  match fsteps all_fixed f_empty (offline_ops [(0, [1; 2; 2; 0]); (5, [3; 3; 1; 2])] [(2, 7); (3, 7)]) with
+  | Ok st => (o_size st 1, o_size st 7, get_idx st 2, get_idx st 7)
+  | _ => (0, 0, None, None)
+  end = (2, 5, None, Some [((0, 2), 2); ((5, 3), 2); ((5, 2), 1)]).
+Proof. exact offline_example. Qed.
